@@ -736,6 +736,7 @@ C16_SessionIsolation ==
 
 (* witness for the known finding: TRUE as long as nobody could observe D6  *)
 D6_NotObservable == gh.stale = <<>>
+D3_NotTaken == "D3" \notin gh.dev
 
 ----------------------------------------------------------------------------
 (* C11 - no residual state                                                 *)
